@@ -144,7 +144,7 @@ impl Prop for C17Prop {
         "C17"
     }
     fn rule(&self) -> String {
-        "Streams (proptest tapes): enc = scenarios over 45 encoding labels (UTF-8, UTF-16LE/BE, windows-125x/874, ISO-8859-x, KOI8, IBM866, Mac, Shift_JIS, EUC-JP, ISO-2022-JP, GBK, gb18030, Big5, EUC-KR and aliases) x BOM {none, UTF-8, UTF-16LE, UTF-16BE} (a BOM overrides the configured encoding) x texts = small unformatted programs whose identifiers, strings and comments use characters from a pool (Latin, Cyrillic, Greek, Hebrew, Arabic, Thai, CJK, kana, hangul, U+3000, astral) kept only when representable in the deciding encoding, ASCII-only texts included x {file rewritten in place, stdin -> stdout} x generated configuration; malformed = per encoding a byte sequence the decoder rejects. Oracle: the bytes written equal BOM + E(format_lib(text)) with E = a hand-written UTF-8/UTF-16 encoder or encoding_rs for legacy encodings; malformed input: exit non-zero, file bytes and mtime untouched, nothing on stdout. Non-trivial = a character >= U+0080 survives into the output or a BOM is present; distinct by hash of the scenario."
+        "Streams (proptest tapes): mixed = 3-8 files with BOM-selected encodings and one malformed file in one invocation (1-4 worker threads): every good file still equals BOM + E(format(text)) and the malformed one is untouched; enc = scenarios over 45 encoding labels (UTF-8, UTF-16LE/BE, windows-125x/874, ISO-8859-x, KOI8, IBM866, Mac, Shift_JIS, EUC-JP, ISO-2022-JP, GBK, gb18030, Big5, EUC-KR and aliases) x BOM {none, UTF-8, UTF-16LE, UTF-16BE} (a BOM overrides the configured encoding) x texts = small unformatted programs whose identifiers, strings and comments use characters from a pool (Latin, Cyrillic, Greek, Hebrew, Arabic, Thai, CJK, kana, hangul, U+3000, astral) kept only when representable in the deciding encoding, ASCII-only texts included x {file rewritten in place, stdin -> stdout} x generated configuration; malformed = per encoding a byte sequence the decoder rejects. Oracle: the bytes written equal BOM + E(format_lib(text)) with E = a hand-written UTF-8/UTF-16 encoder or encoding_rs for legacy encodings; malformed input: exit non-zero, file bytes and mtime untouched, nothing on stdout. Non-trivial = a character >= U+0080 survives into the output or a BOM is present; distinct by hash of the scenario."
             .into()
     }
     fn assumptions(&self) -> Vec<String> {
@@ -155,9 +155,27 @@ impl Prop for C17Prop {
         vec![
             Stream::random("enc", if q { 150 } else { 2500 }, 200),
             Stream::random("malformed", if q { 20 } else { 200 }, 32),
+            Stream::random("mixed", if q { 15 } else { 200 }, 200),
         ]
     }
     fn generate(&self, stream: &str, t: &mut Tape) -> Option<Case> {
+        if stream == "mixed" {
+            // several files with different BOM-selected encodings in ONE invocation, a malformed
+            // one among them: every good file is still written in its own encoding
+            let cfg = Cfg::gen_unsaturated(t);
+            let n = 3 + t.below(6);
+            let bad_at = t.below(n);
+            let mut files = vec![];
+            for i in 0..n {
+                let bom = (*t.pick(&["none", "utf8", "utf16le", "utf16be"])).to_string();
+                let ch = *t.pick(&['é', 'Ж', '中', '😀', 'x']);
+                let text = format!("procedure   P{i};\nbegin\n  S:='{ch}{ch}'  +  Foo( {i},1 ,2);   //{ch}note\nend;\n").repeat(1 + t.below(30) as usize);
+                files.push(serde_json::json!({"bom": bom, "text": text, "bad": i == bad_at}));
+            }
+            let mut c = Case::text("mixed", String::new(), cfg);
+            c.extra = serde_json::json!({"mixed": files, "threads": *t.pick(&[1, 1, 2, 4])});
+            return Some(c);
+        }
         let cfg = Cfg::gen_unsaturated(t);
         let label = t.pick_str(LABELS).to_string();
         let bom = if t.chance(2, 3) { "none" } else { *t.pick(&["utf8", "utf16le", "utf16be"]) }.to_string();
@@ -206,6 +224,58 @@ impl Prop for C17Prop {
         None
     }
     fn check(&self, case: &Case, ctx: &mut Ctx) -> Outcome {
+        if let Some(files) = case.extra.get("mixed").and_then(|v| v.as_array()) {
+            cli::check_no_config_above();
+            let sc = Scratch::new();
+            let mut args = case.cfg.to_cli();
+            let mut expect: Vec<(std::path::PathBuf, Vec<u8>, bool)> = vec![];
+            for (i, f) in files.iter().enumerate() {
+                let bom_name = f["bom"].as_str().unwrap_or("none").to_string();
+                let text = f["text"].as_str().unwrap_or("").to_string();
+                let bad = f["bad"].as_bool().unwrap_or(false);
+                let scn = Scn { label: "utf-8".into(), bom: bom_name.clone(), text: text.clone(), malformed_hex: String::new(), via_stdin: false };
+                let enc = deciding(&scn).unwrap();
+                let mut bytes = bom_bytes(&bom_name).to_vec();
+                let mut want = bytes.clone();
+                if bad {
+                    bytes.extend(find_malformed(enc).unwrap_or_else(|| vec![0xFF]));
+                    want = bytes.clone();
+                } else {
+                    bytes.extend(encode(enc, &text).unwrap());
+                    want.extend(encode(enc, &format_with(&case.cfg, &text)).unwrap());
+                }
+                let name = format!("m{i:02}.pas");
+                let p = sc.write(&name, &bytes);
+                args.push(name);
+                expect.push((p, want, bad));
+            }
+            let threads = case.extra.get("threads").and_then(|v| v.as_u64()).unwrap_or(1);
+            let r = cli::run_pasfmt(&args, &sc.dir, None, &[("RAYON_NUM_THREADS", threads.to_string())]);
+            if r.ok() {
+                return Outcome::Fail(Failure::new("mixed-exit", "a batch with a malformed file exited 0".into()));
+            }
+            for (p, want, bad) in &expect {
+                let now = std::fs::read(p).unwrap_or_default();
+                if &now != want {
+                    return Outcome::Fail(
+                        Failure::new(
+                            "mixed-bytes",
+                            format!(
+                                "{}: {} after a batch that contains a malformed file ({} bytes on disk, {} expected); stderr {:?}",
+                                p.file_name().unwrap().to_string_lossy(),
+                                if *bad { "the malformed file was rewritten" } else { "not written as BOM + encode(format(decode))" },
+                                now.len(),
+                                want.len(),
+                                short(&r.stderr_text(), 200)
+                            ),
+                        )
+                        .fact(format!("threads:{threads}")),
+                    );
+                }
+            }
+            ctx.class("mixed-batch");
+            return Outcome::Pass { nontrivial: true };
+        }
         let Ok(scn) = serde_json::from_value::<Scn>(case.extra.clone()) else {
             return Outcome::Discard("no-scenario");
         };
